@@ -101,7 +101,10 @@ def handle (req : Json) : Json :=
         return Json.mkObj [("accepts", toJson (genAccepts (fold d) (opId d o) s v))]
     | "model" =>
         let g ← parseGraph (← req.getObjVal? "graph")
-        let m := buildModel genFacts g
+        let extra ← match req.getObjVal? "extra" with
+          | .ok j => parseReqs j
+          | .error _ => pure []
+        let m := buildModelWith genFacts extra g
         return Json.mkObj [
           ("imports", reqsJson m.imports),
           ("main", Json.arr (m.main.map entryJson).toArray),
